@@ -1,0 +1,34 @@
+//go:build verif
+
+// Contracts for gocv (see /verif/DESIGN.md). Comment-only file: takes no part in any build.
+
+package listmap
+
+// Abstract view of a ListMap: the set of keys, their values and the number of keys (the list order is
+// not part of this view). The methods are trusted against this view (container/list is not modelled).
+//@ ghost *.lmhas (Array Bytes Bool)
+//@ ghost *.lmval (Array Bytes Iface)
+//@ ghost *.lmsize Int
+
+//@ trusted func (*ListMap).Size
+//@   frame nothing
+//@   ensures result == lm.lmsize && result >= 0
+//@ trusted func (*ListMap).Exist
+//@   frame nothing
+//@   ensures result == lm.lmhas[key]
+//@ trusted func (*ListMap).GetItem
+//@   frame nothing
+//@   ensures (result1 == nil) == lm.lmhas[key]
+//@   ensures result1 == nil ==> result0 == lm.lmval[key]
+//@ trusted func (*ListMap).Push
+//@   frame allocates, lm.lmhas, lm.lmval, lm.lmsize
+//@   ensures lm.lmhas == store(old(lm.lmhas), key, true) && lm.lmval == store(old(lm.lmval), key, value)
+//@   ensures lm.lmsize == (old(lm.lmhas[key]) ? old(lm.lmsize) : old(lm.lmsize) + 1)
+//@ trusted func (*ListMap).Remove
+//@   frame lm.lmhas, lm.lmval, lm.lmsize
+//@   ensures lm.lmhas == store(old(lm.lmhas), key, false)
+//@   ensures lm.lmsize == (old(lm.lmhas[key]) ? old(lm.lmsize) - 1 : old(lm.lmsize))
+//@   ensures forall k Bytes :: k != key ==> lm.lmval[k] == old(lm.lmval[k])
+//@ trusted func New
+//@   frame allocates
+//@   ensures result != nil && fresh(result) && result.lmsize == 0 && forall k Bytes :: !result.lmhas[k]
